@@ -13,7 +13,7 @@ Streams
   unit        : synthetic (file lines, disabled codes, sequence of show_error calls) fed to the *real*
                 NameCheckVisitor.show_error / show_errors_for_unused_ignores / show_errors_for_bare_ignores
   options     : synthetic option-instance lists -> real Options.is_error_code_enabled
-  model       : lake env lean --run Driver/C11.lean  (Emit.check, Emit.specCheck, D11 class, isErrorCodeEnabled)
+  model       : lake env lean --run Driver/C11.lean  (C11.check, C11.specCheck, D11 class, isErrorCodeEnabled)
 Correspondence: every real run records the raw stream of show_error calls (a recording subclass of
 NameCheckVisitor); the Lean model is fed (lines, disabled codes, raw stream) and must reproduce the failure list in
 order, and the set used_ignores.  unit/options compare directly.  Stream `spec`: Lean specCheck == Python oracle on
@@ -25,6 +25,7 @@ from harness.common import lean, pya
 
 PROP = "C11"
 LEAN_PROP = "PyaModel.Props.C11"
+NAMESPACE = "Pya.C11"
 LEAN_TARGETS = ["PyaModel.Spec.Suppress"]
 ANCHORS = [
     ("pyanalyze/node_visitor.py", "BaseNodeVisitor.show_error"),
@@ -110,7 +111,7 @@ def translate(ctx):
         raise ValueError("NameCheckVisitor.check no longer calls both end-of-file passes: %r" % codes)
     text = (
         "/-! Regenerated by harness/props/c11.py `translate` from the live pyanalyze; do not edit. -/\n"
-        "namespace Pya\nnamespace Emit\nnamespace Gen\n\n"
+        "namespace Pya.C11.Gen\n\n"
         "/-- `pyanalyze.node_visitor.IGNORE_COMMENT` -/\n"
         "def ignoreComment : String := %s\n\n"
         "/-- constant part of the f-string regex `show_error` searches the line with, after `re.escape(ignore_comment)` -/\n"
@@ -119,7 +120,7 @@ def translate(ctx):
         "def unusedIgnoreCode : String := %s\n\n"
         "/-- error code `NameCheckVisitor.check` passes to `show_errors_for_bare_ignores` -/\n"
         "def bareIgnoreCode : String := %s\n\n"
-        "end Gen\nend Emit\nend Pya\n"
+        "end Pya.C11.Gen\n"
     ) % (_lean_str(ic), _lean_str(suffixes[0]), _lean_str(codes["show_errors_for_unused_ignores"]),
          _lean_str(codes["show_errors_for_bare_ignores"]))
     lean.write_if_changed(os.path.join(lean.LEAN, "PyaModel", "Generated", "EmitConsts.lean"), text)
@@ -265,16 +266,22 @@ def enc_raw(r):
                      str(r["obey"]), str(r["save"])])
 
 
-def driver_line(off, lines, raw):
-    return "E|%s|%s|%s" % (",".join(sorted(off)) or "-", " ".join(enc_line(l) for l in lines),
+def driver_line(off, lines, raw, src=None):
+    base = "E|%s|%s|%s" % (",".join(sorted(off)) or "-", " ".join(enc_line(l) for l in lines),
                            " ".join(enc_raw(r) for r in raw))
+    return base if src is None else base + "|" + enc_line(src)
+
+
+def dec_lines(s):
+    return ["" if t == "-" else "".join(chr(int(x)) for x in t.split(".")) for t in s.split(" ") if t != ""]
 
 
 def parse_out(s):
     if s == "bad-op":
-        return {"model": "bad-op", "used": "bad-op", "spec": "bad-op", "D": None}
+        return {"model": "bad-op", "used": "bad-op", "spec": "bad-op", "D": None, "sl": None}
     d = dict(x.split("=", 1) for x in s.split(" "))
     d["D"] = None if d.get("D") in (None, "-") else d["D"]
+    d.setdefault("sl", None)
     return d
 
 
@@ -352,6 +359,28 @@ def gen_program(rng, small=False):
             lines += inst(rng.choice(STMTS), 8)
         lines.append("        return \"s\"")
     lines += rng.choice(TAIL)
+    return lines
+
+
+BREAKS = ["\x0c", "\x0b", "\x1c", "\x1d", "\x1e", "\x85", "\u2028", "\u2029"]
+
+
+def inject_breaks(rng, lines):
+    """Put characters that only str.splitlines() treats as line boundaries into a program: a form feed on a line of
+    its own (the page break of GNU-style sources), or any of them inside a string literal or an ordinary comment."""
+    lines = list(lines)
+    for _ in range(rng.randint(1, 2)):
+        kind = rng.random()
+        at = rng.randint(1, len(lines))
+        if kind < 0.4:
+            lines.insert(at, "\x0c")
+        elif kind < 0.7:
+            ind = " " * (len(lines[at - 1]) - len(lines[at - 1].lstrip())) if lines[at - 1].strip() else ""
+            if lines[at - 1].rstrip().endswith(":") or lines[at - 1].rstrip().endswith(","):
+                continue
+            lines.insert(at, "%ssb%d = \"a%sb\"" % (ind, at, rng.choice(BREAKS)))
+        else:
+            lines.insert(at, "# page%sbreak" % rng.choice(BREAKS))
     return lines
 
 
@@ -458,8 +487,11 @@ class Batch:
         self.ctx, self.with_model, self.items = ctx, with_model, []
 
     def add(self, stream, case, lines, off, fails, raw, used, what, spec_expect=None, nontriv=False):
-        self.items.append(dict(stream=stream, case=case, lines=lines, off=off, fails=fails, raw=raw, used=used,
-                               what=what, spec_expect=spec_expect, nontriv=nontriv))
+        # `lines` are the generator's lines (separated by "\n" = the tokenizer's lines); the model is fed what
+        # pyanalyze's _lines() sees, str.splitlines() of the source, and the source itself
+        src = "".join(l + "\n" for l in lines)
+        self.items.append(dict(stream=stream, case=case, lines=src.splitlines(), src=src, off=off, fails=fails, raw=raw,
+                               used=used, what=what, spec_expect=spec_expect, nontriv=nontriv))
 
     def flush(self):
         ctx, items = self.ctx, self.items
@@ -468,7 +500,7 @@ class Batch:
             return
         outs = [None] * len(items)
         if self.with_model:
-            outs = [parse_out(o) for o in lean.run_driver("C11", [driver_line(model_off(i["off"]), i["lines"], i["raw"]) for i in items])]
+            outs = [parse_out(o) for o in lean.run_driver("C11", [driver_line(model_off(i["off"]), i["lines"], i["raw"], i["src"]) for i in items])]
         for it, mo in zip(items, outs):
             ctx.count(1, **{it["stream"].replace("-", "_"): 1})
             if it["nontriv"]:
@@ -479,6 +511,9 @@ class Batch:
             if mo is not None:
                 cls = mo["D"]
                 ctx.corr(it["stream"])
+                ctx.corr("splitlines")
+                if mo["sl"] != "ok":
+                    ctx.disagree("splitlines", it["case"], "str.splitlines(): %r" % (it["lines"],), "C11.pyLines differs")
                 got = "%s used=%s" % (impl, show_used(it["used"]))
                 want = "%s used=%s" % (mo["model"], mo["used"])
                 conforms = impl == mo["model"]
@@ -804,6 +839,61 @@ def run_options(ctx, with_model=True):
                 ctx.disagree("options", {"insts": c[0], "path": c[1], "code": c[2]}, impl[i], model[i])
 
 
+# ------------------------------------------------------------------ lines stream: splitlines() and the tokenizer
+def run_lines(ctx, with_model=True):
+    """Random small sources: C11.pyLines == str.splitlines() (model), C11.tokLines == where CPython's parser puts
+    the statements (spec)."""
+    rng = ctx.rng
+    cases = []
+    for k in range(ctx.n(400, 4000)):
+        parts, n = [], 0
+        for _ in range(rng.randint(0, 6)):
+            r = rng.random()
+            if r < 0.45:
+                n += 1
+                parts.append("v%d = %d" % (n, n))
+            elif r < 0.6:
+                parts.append("# c%sc" % rng.choice(BREAKS + [" "]))
+            elif r < 0.75:
+                n += 1
+                parts.append("v%d = 'a%sb'" % (n, rng.choice(BREAKS)))
+            elif r < 0.85:
+                parts.append(rng.choice(["\x0c", "", "\x0c\x0c", " "]))
+            else:
+                n += 1
+                parts.append("%sv%d = %d" % (rng.choice(["\x0c", ""]), n, n))
+        src = "".join(p + rng.choice(["\n", "\n", "\n", "\r\n", "\r"]) for p in parts)
+        if parts and rng.random() < 0.2:
+            src = src.rstrip("\r\n")
+        cases.append(src)
+    cases += ["", "\n", "\r", "\r\n", "a\r\n\nb", "a\n\r", "\x0c"]
+    model = lean.run_driver("C11", ["S|" + enc_line(c) for c in cases]) if with_model else None
+    for i, src in enumerate(cases):
+        ctx.count(1, lines=1)
+        if model is None:
+            continue
+        m = re.match(r"py=(.*) tok=(.*)$", model[i])
+        py, tok = dec_lines(m.group(1)), dec_lines(m.group(2))
+        ctx.corr("splitlines")
+        if py != src.splitlines():
+            ctx.disagree("splitlines", {"src": src}, repr(src.splitlines()), repr(py))
+        try:
+            tree = ast.parse(src)
+        except SyntaxError:
+            ctx.tag("lines_unparsable")
+            continue
+        ctx.corr("spec-toklines")
+        for node in tree.body:
+            if isinstance(node, ast.Assign):
+                name = node.targets[0].id
+                if not (node.lineno <= len(tok) and re.search(r"(^|[^0-9a-z])%s =" % name, tok[node.lineno - 1])):
+                    ctx.disagree("spec-toklines", {"src": src}, "CPython puts %s on line %d" % (name, node.lineno),
+                                 "C11.tokLines: %r" % (tok,))
+                    break
+        if py != tok:
+            ctx.nontriv("lines:" + repr(src))
+
+
 # ------------------------------------------------------------------ true command line (-d) in a subprocess
 def run_cli(ctx, base):
     path = os.path.join(ctx.scratch, "cli_prog_%d.py" % ctx.rng.randint(0, 10 ** 9))
@@ -849,8 +939,8 @@ def corpus():
 
 def _run(ctx, with_model):
     batch = Batch(ctx, with_model)
-    budget_small = dict(max_codes_all=5, extra_subsets=6, cfg_routes=2, single=10 ** 6, multi=ctx.n(6, 20))
-    budget_rand = dict(max_codes_all=ctx.n(4, 5), extra_subsets=ctx.n(3, 12), cfg_routes=ctx.n(1, 3),
+    budget_small = dict(max_codes_all=ctx.n(4, 5), extra_subsets=ctx.n(3, 6), cfg_routes=2, single=10 ** 6, multi=ctx.n(6, 20))
+    budget_rand = dict(max_codes_all=ctx.n(3, 5), extra_subsets=ctx.n(3, 12), cfg_routes=ctx.n(1, 3),
                        single=ctx.n(70, 10 ** 6), multi=ctx.n(8, 25))
     # 1. corpus
     for item in corpus():
@@ -865,6 +955,8 @@ def _run(ctx, with_model):
         program_case(ctx, batch, gen_program(ctx.rng, small=True), budget_small)
     for _ in range(ctx.n(4, 30)):
         program_case(ctx, batch, gen_program(ctx.rng), budget_rand)
+    for _ in range(ctx.n(2, 8)):   # sources where splitlines() and the tokenizer disagree about the lines
+        program_case(ctx, batch, inject_breaks(ctx.rng, gen_program(ctx.rng, small=True)), budget_rand)
     PROFILE[0] = "wide"      # every error code on: lint codes join the diagnostics and the subsets
     try:
         for _ in range(ctx.n(2, 10)):
@@ -873,6 +965,7 @@ def _run(ctx, with_model):
         PROFILE[0] = "std"
     run_unit(ctx, with_model)
     run_options(ctx, with_model)
+    run_lines(ctx, with_model)
     for _ in range(ctx.n(1, 3)):
         run_cli(ctx, gen_program(ctx.rng, small=True))
     ctx.extra["checkers_built"] = len(_KW)
